@@ -8,6 +8,7 @@ import SideVerif.Drive.C13
 import SideVerif.Drive.C02
 import SideVerif.Drive.C03
 import SideVerif.Drive.C06
+import SideVerif.Drive.C08
 open Lean
 namespace SideVerif.Drive
 
@@ -25,6 +26,7 @@ def dispatch (op : String) (j : Json) : Except String Json :=
   | "c02" => c02 j
   | "c03" => c03 j
   | "c06" => c06 j
+  | "c08" => c08 j
   | "ping" => pure (Json.str "pong")
   | _ => throw s!"unknown op {op}"
 
